@@ -408,8 +408,15 @@ func (d *dataPlane) SetKey(key []byte) error {
 }
 
 func (d *dataPlane) SetPortRange(start, end uint16) {
+	d.mtx.Lock()
+	defer d.mtx.Unlock()
 	d.dispatchedPortStart = start
 	d.dispatchedPortEnd = end
+	// The underlay providers do the actual port rewriting when a packet is delivered to a local
+	// end host: ports outside of the range are redirected to the shim dispatcher's port.
+	for _, u := range d.underlays {
+		u.SetDispatchPorts(start, end, topology.EndhostPort)
+	}
 }
 
 // AddInternalInterface sets the interface the data-plane will use to send/receive traffic in the
